@@ -578,6 +578,9 @@ FORMS = ["5 * (8h * t)", "(7 * 10y^3) * x", "(7q * 10y^3) * x", "792z^4 * 490f *
          "4 + -2x^3", "y + -3x^2", "2x + -0.5x^2", "(x + 1) + -4y^3", "-(3 + 2)", "-(4 * 2)", "-(2 - 5)", "-(6 / 4)", "-(2 ^ 3)", "x + -(3 * 0.5)", "-(0 + 0)",
          "x^0 * x^2", "x^(2 - 2) * x^3", "x^0 + x^0", "0x + 0x", "1x * 1x", "-x * -x", "-x + -x", "x^-1 * x", "2x^-2 * 3x^2"]
 # trees only a rewrite can produce (the grammar has no literal for them): a folded division by zero leaves a nan / inf coefficient
+# exponents far beyond the small-rational view (judged through exponent arithmetic modulo p - 1)
+BIG_EXPONENT_FORMS = ["x^1000000000 + x^1000000001", "x^1000000000 + x^1000000000", "2x^123456789 + 3x^123456789", "0.5x^1000000007 + 0.5x^1000000008", "x^1000000000 * x^1000000001",
+                      "y + x^4000000000 + x^4000000001", "x^(10^12) * x", "3x^99999999999999999999 + 4x^99999999999999999999", "x^2147483647 + x^2147483648"]
 HUGE_FORMS = ["10^4400 * 2 + x", "10^400 * 2 + x", "7^365 + 1", "2^1030 * x + 2^1030 * x", "(10^200)^2 * y", "3x^(10^30) * 2x", "10^400 + 10^400 = x"]
 UNDEF_FORMS = ["(4 / 0)x + 2x", "(0 / 0)x + 3x", "2x + (4 / 0)x", "(4 / 0) + 2", "(4 / 0)x^2 + 2x^2", "(4 / 0)x * 2x", "(1 / 0) * 3", "x * (4 / 0) * x", "(4 / 0)x = 2",
                "(4 / 0)x + 2 = 3", "-(4 / 0) + x", "(4 / 0)x - 2x", "(4 / 0)^2 + 1", "(2 - 2) * x + 2x", "(0 * 3)x + 2x", "0x + 0x", "(5 - 5)x^2 + (1 - 1)x^2"]
